@@ -478,7 +478,23 @@ fn eval_paste(req: &str) -> ImplOut {
         // observers must not themselves be overwritten by the paste
         let hit = observers.iter().any(|o| *o >= tr && *o < tr + h && (8 >= tc && 8 < tc + w || 9 >= tc && 9 < tc + w || 10 >= tc && 10 < tc + w));
         // a cut cell that sat on a dependency cycle (e.g. =SUM(C:C) inside column C) is position dependent
-        let circular = obs_before.iter().any(|v| v.contains("#CIRC!"));
+        // (before the move), and a moved formula that lands inside one of its own ranges (=SUM(2:2)
+        // moved into row 2) is on a cycle afterwards: values are then position dependent, and only
+        // the observers' formula TEXTS are judged (they must name the new location)
+        let circular = obs_before.iter().any(|v| v.contains("#CIRC!")) || obs_after.iter().any(|v| v.contains("#CIRC!"));
+        if !hit {
+            for (k, (rr, cc)) in (r0..r0 + h).flat_map(|rr| (c0..c0 + w).map(move |cc| (rr, cc))).enumerate() {
+                let (nr, nc) = (tr + (rr - r0), tc + (cc - c0));
+                let col = ironcalc_base::expressions::utils::number_to_column(nc).unwrap();
+                let want = [format!("={col}{nr}"), format!("=SUM(${col}{nr}:{col}{nr})"), format!("=SUM({col}${nr}:{col}{nr})")];
+                for (j, w_) in want.iter().enumerate() {
+                    let got = model.get_cell_formula(0, observers[k], 8 + j as i32).ok().flatten().unwrap_or_default();
+                    if &got != w_ {
+                        out = out.fail("c16:cut:observer-formula", &format!("observer of {rr},{cc} (moved to {nr},{nc}) reads `{got}`, expected `{w_}`"));
+                    }
+                }
+            }
+        }
         if !hit && !circular && obs_before != obs_after {
             out = out.fail("c16:cut:observer-value-changed", &format!("formulas pointing at the cut cells changed value: {obs_before:?} → {obs_after:?}"));
         }
